@@ -198,6 +198,7 @@ pub fn run_raw_topic(topic: &str, cx: &mut Raw) -> bool {
         "literals" => literals(cx),
         "fuzz" => fuzz(cx),
         "api" => api(cx),
+        "ser" => ser(cx),
         "ladder" => ladder(cx),
         _ => return false,
     }
@@ -754,5 +755,140 @@ pub fn ladder(cx: &mut Raw) {
                 cx.emit(json!({"kind":"ladder","shape":shape,"depth":d,"thread":thread,"out":outcome,"text": if src.len() > 120 { format!("{}...", &src[..120]) } else { src.clone() }}));
             }
         }
+    }
+}
+
+// ---------------------------------------------------------------------------------------------
+// C19: serialization round trips
+
+fn variants_of(code: &[rscel::ByteCode], out: &mut std::collections::BTreeSet<String>) {
+    fn val(v: &rscel::CelValue, out: &mut std::collections::BTreeSet<String>) {
+        use rscel::CelValue as C;
+        let n = match v {
+            C::Int(_) => "Int",
+            C::UInt(_) => "UInt",
+            C::Float(_) => "Float",
+            C::Bool(_) => "Bool",
+            C::String(_) => "String",
+            C::Bytes(_) => "Bytes",
+            C::List(l) => {
+                l.iter().for_each(|x| val(x, out));
+                "List"
+            }
+            C::Map(m) => {
+                m.values().for_each(|x| val(x, out));
+                "Map"
+            }
+            C::Null => "Null",
+            C::Ident(_) => "Ident",
+            C::Type(_) => "Type",
+            C::TimeStamp(_) => "TimeStamp",
+            C::Duration(_) => "Duration",
+            C::ByteCode(bc) => {
+                let inner: Vec<rscel::ByteCode> = bc.iter().cloned().collect();
+                variants_of(&inner, out);
+                "ByteCode"
+            }
+            C::Err(_) => "Err",
+            _ => "Other",
+        };
+        out.insert(n.to_string());
+    }
+    for c in code {
+        let name = format!("{:?}", c);
+        let n = match c {
+            rscel::ByteCode::Push(v) => {
+                val(v, out);
+                "Push".to_string()
+            }
+            rscel::ByteCode::Jmp(_) => "Jmp".to_string(),
+            rscel::ByteCode::JmpCond { .. } => "JmpCond".to_string(),
+            rscel::ByteCode::MkList(_) => "MkList".to_string(),
+            rscel::ByteCode::MkDict(_) => "MkDict".to_string(),
+            rscel::ByteCode::Call(_) => "Call".to_string(),
+            rscel::ByteCode::FmtString(_) => "FmtString".to_string(),
+            _ => {
+                // POP -> Pop
+                let l = name.to_lowercase();
+                let mut c = l.chars();
+                match c.next() {
+                    Some(f) => f.to_uppercase().collect::<String>() + c.as_str(),
+                    None => l,
+                }
+            }
+        };
+        out.insert(n);
+    }
+}
+
+fn exec_prog(p: &rscel::Program, bind: &[(String, V)]) -> J {
+    let res = std::panic::catch_unwind(std::panic::AssertUnwindSafe(|| {
+        let mut ctx = rscel::CelContext::new();
+        ctx.add_program("main", p.clone());
+        let mut b = rscel::BindContext::new();
+        for (k, v) in bind {
+            if let Some(c) = v.to_cel() {
+                b.bind_param(k, c);
+            }
+        }
+        crate::val::outcome(&ctx.exec("main", &b))
+    }));
+    res.unwrap_or_else(|p| crate::val::crash(&crate::run::panic_msg(p)))
+}
+
+fn ser_record(cx: &mut Raw, src: &str, binds: &[Vec<(String, V)>]) {
+    let prog = match rscel::Program::from_source(src) {
+        Ok(p) => p,
+        Err(_) => return,
+    };
+    let code: Vec<rscel::ByteCode> = prog.bytecode().iter().cloned().collect();
+    let mut vs = std::collections::BTreeSet::new();
+    variants_of(&code, &mut vs);
+    let mut params: Vec<String> = prog.params().iter().map(|s| s.to_string()).collect();
+    params.sort();
+    let mut fmts = Vec::new();
+    for fmt in ["json", "bincode"] {
+        let rt: Result<Result<rscel::Program, String>, String> = if fmt == "json" {
+            serde_json::to_string(&prog).map_err(|e| e.to_string()).map(|s| serde_json::from_str::<rscel::Program>(&s).map_err(|e| e.to_string()))
+        } else {
+            bincode::serialize(&prog).map_err(|e| e.to_string()).map(|b| bincode::deserialize::<rscel::Program>(&b).map_err(|e| e.to_string()))
+        };
+        match rt {
+            Err(e) => fmts.push(json!({"fmt":fmt,"ser_ok":false,"de_ok":false,"source_eq":false,"params_eq":false,"runs":[],"msg":e})),
+            Ok(Err(e)) => fmts.push(json!({"fmt":fmt,"ser_ok":true,"de_ok":false,"source_eq":false,"params_eq":false,"runs":[],"msg":e})),
+            Ok(Ok(p2)) => {
+                let mut params2: Vec<String> = p2.params().iter().map(|s| s.to_string()).collect();
+                params2.sort();
+                let runs: Vec<J> = binds.iter().map(|b| json!({"orig": exec_prog(&prog, b), "rt": exec_prog(&p2, b)})).collect();
+                fmts.push(json!({"fmt":fmt,"ser_ok":true,"de_ok":true,"source_eq":p2.source() == prog.source(),"params_eq":params2 == params,"runs":runs}));
+            }
+        }
+    }
+    cx.emit(json!({"text":src,"variants":vs.into_iter().collect::<Vec<_>>(),"fmts":fmts}));
+}
+
+pub fn ser(cx: &mut Raw) {
+    let binds: Vec<Vec<(String, V)>> = vec![
+        vec![],
+        vec![("a".into(), V::Int(1)), ("b".into(), V::Int(0)), ("c".into(), V::Str("k".into())), ("m".into(), V::Map(vec![("a".into(), V::Int(1))]))],
+        vec![("a".into(), V::List(vec![V::Int(1), V::Int(2)])), ("b".into(), V::Bool(true)), ("c".into(), V::Null), ("m".into(), V::Dbl(2.5))],
+    ];
+    // constants of every value type, folded by the compiler
+    for src in [
+        "9223372036854775807", "(-9223372036854775807 - 1)", "18446744073709551615u", "0u", "1.5", "5e-324", "1.7976931348623157e308", "-0.0", "1.0/0.0", "-1.0/0.0", "0.0/0.0",
+        "true", "null", "'é𝄞\\n'", "b'\\x00\\xff'", "[1, 2u, 3.5, 'x', b'y', null, true, [1], {'k': 2}]", "{'a': [1, {'b': null}], 'é': 1.0/0.0}", "int", "type(1)", "[int, string, type(null)]",
+        "timestamp('2024-02-29T12:34:56.789Z')", "timestamp(0)", "duration('1h2m3s')", "duration(1, 500000000)", "duration('1ms')", "duration(0, 1000000)",
+        "1/0", "[1/0]", "{'k': 1 % 0}", "size(5)", "[1, 2][5]", "-(-9223372036854775807 - 1)",
+        "a + b", "a.b.c", "a[b]", "f(a, b + 1)", "a.f(b)", "a ? b : c", "a || b && !c", "-a", "a in b", "a < b", "a <= b", "a == b", "a != b", "a >= b", "a > b", "a - b", "a * b", "a / b", "a % b",
+        "[a, b]", "{'k': a, c: b}", "a.map(x, x + b)", "a.filter(x, x > b)", "a.reduce(acc, x, acc + x, 0)", "has(m.a)", "coalesce(m.zz, a)", "f'{a}-{b}'", "match a { case int: 1, case > b: 2, case _: 3 }",
+        "type(now())", "size(a) + size(c)", "m.a + m['a']",
+    ] {
+        ser_record(cx, src, &binds);
+    }
+    let g = full_gen();
+    for i in 0..cx.n {
+        let t = g.expr(&mut cx.rng, 1 + (i % 4) as u32);
+        let src = render(&t, Parens::Min, false, &mut cx.rng);
+        ser_record(cx, &src, &binds);
     }
 }
